@@ -327,14 +327,14 @@ RetHeap(c, r) ==
                                             wr |-> 0, zl |-> FALSE, al |-> 0, off |-> 0, kind |-> "heapdesc"])
               /\ UNCHANGED <<dflt, backing, arenas, cfg, aux>>
     [] c.op = "heap_delete" ->
-         \* all blocks stay live and now belong to the backing heap; default falls back
-         /\ live' = [b \in LiveIds |-> IF live[b].h = c.h THEN [live[b] EXCEPT !.h = backing[c.t]] ELSE live[b]]
+         \* all blocks stay live and now belong to the backing heap; default falls back.  A heap that is bound to another arena than
+         \* the backing heap cannot hand its pages over (they would leave / enter an arena): its pages are abandoned, the blocks are
+         \* orphans like those of a thread that has exited (heap 0) and an exclusive arena stays private
+         /\ LET toback == heaps[c.h].arena = heaps[backing[c.t]].arena IN
+            live' = [b \in LiveIds |-> IF live[b].h = c.h THEN [live[b] EXCEPT !.h = IF toback THEN backing[c.t] ELSE 0] ELSE live[b]]
          /\ heaps' = [x \in DOMAIN heaps \ {c.h} |-> heaps[x]]
          /\ dflt' = [dflt EXCEPT ![c.t] = IF dflt[c.t] = c.h THEN backing[c.t] ELSE dflt[c.t]]
-         \* deleting a heap that is bound to an exclusive arena hands its pages (inside that arena) to the unbound backing heap:
-         \* from then on the arena is no longer private (C15 does not cover this channel; C10 demands the migration)
-         /\ arenas' = [k \in DOMAIN arenas |-> IF k = heaps[c.h].arena THEN [arenas[k] EXCEPT !.excl = FALSE] ELSE arenas[k]]
-         /\ UNCHANGED <<backing, cfg, aux>>
+         /\ UNCHANGED <<backing, arenas, cfg, aux>>
     [] c.op = "heap_destroy" ->
          /\ heaps' = [x \in DOMAIN heaps \ {c.h} |-> heaps[x]]
          /\ dflt' = [dflt EXCEPT ![c.t] = IF dflt[c.t] = c.h THEN backing[c.t] ELSE dflt[c.t]]
